@@ -25,7 +25,9 @@ from vlib import paths
 #   zl    = 1: _fill_coeff zeroes the last element of a full-length step coefficient (fixes/C14-2.patch)
 #   ndmin = 2: read_coeff calls np.loadtxt(..., ndmin=2)                              (fixes/C14-3.patch)
 #   hold  = 1: the cubic branch of _fill_coeff keeps the boundary sample outside the channel's grid (fixes/C14-4.patch)
-FLAGS = {"zl": 0, "ndmin": 0, "hold": 0, "cubic": "fun _ => .notAKnot", "read": False}
+#   hdr   = 1: save_coeff always writes the header line (comment prefix inside the header, fixes/C14-5.patch);
+#           0: np.savetxt(header=header) as found - no line at all for an empty header
+FLAGS = {"zl": 0, "ndmin": 0, "hold": 0, "hdr": 0, "cubic": "fun _ => .notAKnot", "read": False}
 
 _CUBIC_HEAD = ["sp = CubicSpline(old_tlist, old_coeffs)", "new_coeff = sp(full_tlist)"]
 _CUBIC_ZERO = ["new_coeff *= full_tlist <= old_tlist[-1]", "new_coeff *= full_tlist >= old_tlist[0]"]
@@ -99,8 +101,23 @@ def detect_flags():
             ndmin = 2 if kws.get("ndmin") == "2" else 0
     if ndmin is None:
         raise TranslatorError("np.loadtxt call of read_coeff not found")
+    hdr = None
+    for node in ast.walk(_func(t_proc, "save_coeff")):
+        if isinstance(node, ast.Call) and ast.unparse(node.func) == "np.savetxt":
+            kws = {k.arg: ast.unparse(k.value) for k in node.keywords}
+            if (set(kws) - {"delimiter", "fmt", "header", "comments"} or kws.get("delimiter") not in ("'\\t'", '"\\t"')
+                    or kws.get("fmt") not in ("'%1.16f'", '"%1.16f"')):
+                raise TranslatorError("np.savetxt call of save_coeff not recognised: " + ast.unparse(node))
+            if kws.get("header") == "header" and "comments" not in kws:
+                hdr = 0
+            elif kws.get("header") in ("'# ' + header", '"# " + header') and kws.get("comments") in ("''", '""'):
+                hdr = 1
+            else:
+                raise TranslatorError("header of the np.savetxt call of save_coeff not recognised: " + ast.unparse(node))
+    if hdr is None:
+        raise TranslatorError("np.savetxt call of save_coeff not found")
     cubic, hold = _cubic_branch(_func(t_pulse, "_fill_coeff"))
-    return {"zl": zl, "ndmin": ndmin, "hold": hold, "cubic": cubic, "read": True}
+    return {"zl": zl, "ndmin": ndmin, "hold": hold, "hdr": hdr, "cubic": cubic, "read": True}
 
 
 def flags():
@@ -118,6 +135,8 @@ def with_flags(line):
         return line + f" zl={f['zl']}"
     if line.startswith("readshape "):
         return line + f" ndmin={f['ndmin']}"
+    if line.startswith("header "):
+        return line + f" hdr={f['hdr']}"
     return line
 
 
@@ -593,6 +612,10 @@ class C14(PropertyCheck):
         "QipVerif.C14.cubic_interpolant",
         "QipVerif.C14.splineDegree_spec",
         "QipVerif.C14.run_analytically_is_time_ordered",
+        "QipVerif.C14.header_written",
+        "QipVerif.C14.save_read_labels_partial",
+        "QipVerif.C14.save_read_labels_repaired",
+        "QipVerif.C14.C14_counterexample_empty_header",
     ]
     technique = ("Lean 4 proof (induction over the merged grid with the slot invariant, exact rationals; Mathlib's matrix exponential, "
                  "its derivative and Gronwall's inequality for the time-ordered product) + model/implementation correspondence; the "
@@ -667,7 +690,7 @@ class C14(PropertyCheck):
             os.makedirs(os.path.dirname(gen), exist_ok=True)
             open(gen, "w").write(text)
         ctx.log(f"variants of {paths.REPO}: step padding zeroes the last element of a full-length coefficient = {bool(FLAGS['zl'])}, "
-                f"np.loadtxt ndmin = {FLAGS['ndmin']}")
+                f"np.loadtxt ndmin = {FLAGS['ndmin']}, save_coeff always writes the header line = {bool(FLAGS['hdr'])}")
         return [gen] if old != text else []
 
     # -----------------------------------------------------------------------------------------
@@ -828,6 +851,31 @@ class C14(PropertyCheck):
         if not ok:
             res.disagree(inp, o[:300], str(impl)[:300], "get_full_tlist", {"kind": "tlist", "tlists": inp["tlists"]})
 
+    def _no_header_case(self, ctx, res, inp, spec, labels, inctime):
+        d = tempfile.mkdtemp(prefix="c14-")
+        w = {"kind": "labels", "labels": labels, "inctime": inctime}
+        try:
+            p, labs, _d, _m = build_processor(spec, labels)
+            load_pulses(p, labs, spec)
+            fn = os.path.join(d, "coeff.txt")
+            p.save_coeff(fn, inctime=inctime)
+            with open(fn, newline="") as f:
+                first = f.readline()
+            res.case(inp, nontrivial=False, tags=["labels-malformed", "no-header-line"])
+            if first.startswith("#"):
+                res.disagree(inp, "no header line (empty header string)", first, "header line written by save_coeff", w)
+                return
+            p2, _l, _d2, _m2 = build_processor(spec, labels)
+            try:
+                p2.read_coeff(fn, inctime=inctime)
+                impl = ("ok", [q.label for q in p2.pulses])
+            except Exception as e:
+                impl = ("err", type(e).__name__)
+            if impl != ("err", "KeyError"):
+                res.disagree(inp, "KeyError (first data row read as the header)", impl, "read_coeff of a file without header line", w)
+        finally:
+            shutil.rmtree(d, ignore_errors=True)
+
     def _labels_case(self, ctx, res, rng, malformed):
         qutip, Processor, _f, Pulse = _impl()
         alpha = "abcXYZ019_ -+#@!/.,:'\"()[]{}=%&*?<>|~^\\ \t"
@@ -846,6 +894,10 @@ class C14(PropertyCheck):
         inp = {"labels": labels, "inctime": inctime, "chans": len(spec["chans"])}
         enc = lambda s: ".".join(str(ord(c)) for c in s) if s else "-"
         ho = _Drv(ctx.driver("drv_grid")).run([f"header inctime={int(inctime)} labels=" + ";".join(enc(l) for l in labels)])[0]
+        if ho == "none":
+            # the tree as found, empty header string: np.savetxt writes no header line; read_coeff takes the first data
+            # row for it and looks up a label no pulse has (known finding class; repaired by fixes/C14-5.patch)
+            return self._no_header_case(ctx, res, inp, spec, labels, inctime)
         model_line = "".join(chr(int(c)) for c in ho[3:].split(".")) if ho[3:] != "-" else ""
         ro = _Drv(ctx.driver("drv_grid")).run([f"read inctime={int(inctime)} line=" + enc(model_line.split("\n")[0] + "\n")])[0]
         model_labels = ["" if x == "-" else "".join(chr(int(c)) for c in x.split(".")) for x in ro[3:].split(";")]
